@@ -253,6 +253,77 @@ def run(res, tier, build_ok):
                 res.count("device failure injections")
                 reqs.append(("facaderun %d ok err ok" % (1 if m["unmarshall"] is not None else 0), "ok execs=1 trace=c,e raised", meth))
                 break
+    # ---- histories: the same facade method called again while the caller still holds the earlier results.  Every call
+    #      must hand the device a command and buffers of its own (a buffer handed over by two commands is handed over
+    #      twice), fresh (zero-filled) on entry, and an earlier result must stay as the device left it.  Sizes include
+    #      bulk transfers (1 MiB and above), where buffer pooling / caching would be tempting.
+    hist_plan = []
+    for meth, w in (("read10", 10), ("read12", 12), ("read16", 16)):
+        for bs, tl in ((512, 1), (512, 8), (512, 2047), (512, 2048), (4096, 256), (4096, 512), (512, 4096 + 1)):
+            hist_plan.append((meth, {"lba": 7, "tl": tl}, bs))
+    for meth, kw in (("inquiry", {}), ("inquiry", {"alloclen": 255}), ("readcapacity10", {}), ("readcapacity16", {}), ("reportluns", {}),
+                     ("modesense6", {"page_code": 0x0A}), ("modesense10", {"page_code": 0x0A}), ("getlbastatus", {"lba": 0}),
+                     ("readelementstatus", {"start": 0, "num": 4}), ("reporttargetportgroups", {}), ("readdiscinformation", {"data_type": 1})):
+        hist_plan.append((meth, kw, 0))
+    for meth, kw, bs in hist_plan:
+        if not hasattr(SCSI, meth):
+            continue
+        enum = [e for e in (sets["sbc"], sets["smc"], sets["mmc"], sets["spc"]) if True]
+        held = []
+        ncall = {"n": 0}
+        handed = []
+
+        def responder2(cmd, ncall=ncall, handed=handed):
+            ncall["n"] += 1
+            handed.append((cmd, cmd.datain, bytes(cmd.datain[:64]), any(cmd.datain[-64:]) if len(cmd.datain) else False))
+            if len(cmd.datain):
+                n = len(cmd.datain)
+                pat = bytes([(ncall["n"] * 37 + 1) & 0xFF])
+                if meth.startswith("read1"):
+                    cmd.datain[:] = pat * n                 # a full transfer on the first call ...
+                    if ncall["n"] > 1:
+                        cmd.datain[n // 2:] = bytes(n - n // 2)   # ... later ones are short / zero in the tail
+        ok_enum = None
+        for e in (sets["sbc"], sets["smc"], sets["mmc"], sets["ssc"], sets["spc"]):
+            try:
+                fac, dev = devices.attach(e, blocksize=bs, responder=responder2)
+                del handed[:]        # the probe INQUIRY of the attach is not part of the history
+                ncall["n"] = 0
+                first = getattr(fac, meth)(**kw)
+                ok_enum = e
+                break
+            except Exception:
+                continue
+        if ok_enum is None:
+            continue
+        held.append((first, bytes(first.datain)))
+        bad = None
+        for k in range(2):
+            try:
+                c2 = getattr(fac, meth)(**kw)
+            except Exception as e:
+                bad = "call %d raised %s" % (k + 2, type(e).__name__)
+                break
+            held.append((c2, bytes(c2.datain)))
+        res.case(("history", meth, bs, tuple(sorted(kw.items()))), {"method": meth, "args": kw, "blocksize": bs, "calls": len(held), "datain bytes": len(first.datain)})
+        res.count("repeated-call histories")
+        if bad is None:
+            bufs = [h[1] for h in handed if len(h[1])]
+            if len({id(b) for b in bufs}) != len(bufs):
+                bad = "the same data-in buffer was handed to the device by more than one command"
+            elif len({id(h[0]) for h in handed}) != len(handed) or len(handed) != len(held):
+                bad = "%d calls sent %d commands / command objects are shared" % (len(held), len(handed))
+            elif any(any(h[2]) or h[3] for h in handed):
+                bad = "a data-in buffer was not zero-filled when it was handed to the device"
+            else:
+                for i, (c, snap) in enumerate(held):
+                    if bytes(c.datain) != snap:
+                        bad = "the result of call %d changed after a later call" % (i + 1)
+                        break
+        if bad:
+            res.violation("facade=%s history" % meth, "SCSI.%s called %d times while the results are held: %s" % (meth, len(held), bad),
+                          {"method": meth, "args": kw, "blocksize": bs, "datain_bytes": len(first.datain)})
+        del held[:], handed[:]
     reps = drv.batch([r[0] for r in reqs])
     for (line, impl, meth), rep in zip(reqs, reps):
         if rep != impl:
